@@ -9,8 +9,8 @@ import (
 
 func init() {
 	register(&PropDef{
-		ID:    "C08",
-		Level: "other",
+		ID:          "C08",
+		Level:       "other",
 		Explanation: "Failure handling as path/effect tables: the dependency verdict (dependents of a failed or canceled stage are marked canceled and never launched; allow_failure keeps dependents ready) on all status × allow rows; STAGE RESULT — in the stage goroutine err∧¬allow sets Error, records the error as the scheduler's result and never sets Done, err∧allow sets Error then Done, ¬err sets Done; FAIL-FAST — in the task-change callback errored ∧ definition found ∧ ¬continue cancels THIS job through the internal cancel, errored ∧ continue and ¬errored never cancel; RUNNER — in execute an exit status with allow_failure continues without marking the task errored, anything else marks it errored, stores and returns the error; WIRING — Stage.AllowFailure and Task.AllowFailure come from the task definition; VERDICT — the completion handler stores the scheduler's result as the job's last error and sets Canceled iff it is context.Canceled, the API's errored flag is the OR over the job's tasks, and no nil verdict leaves the scheduler on the cancel exit.",
 		Trusted:     []string{"upstream runner/executor report exit statuses through executor.IsExitStatus", "C13"},
 		NotDecided:  []string{"which tasks actually ran", "order of the three callback streams"},
@@ -172,7 +172,9 @@ func failFast(w *World, r *Report, ro *Roles, rule string) {
 }
 
 func runnerExecute(w *World, r *Report, rule string) {
-	fn := w.FuncByRole("taskctl", "(*TaskRunner).execute", func(f *ssa.Function) bool { return recvIs(f, "TaskRunner") && callsNamed(f, "PgidExecutor).Execute") && w.storesField(f, "Task", "Errored") })
+	fn := w.FuncByRole("taskctl", "(*TaskRunner).execute", func(f *ssa.Function) bool {
+		return recvIs(f, "TaskRunner") && callsNamed(f, "PgidExecutor).Execute") && w.storesField(f, "Task", "Errored")
+	})
 	if fn == nil {
 		r.Undecided(rule, "taskctl.TaskRunner.execute", "-", "not found")
 		return
